@@ -634,7 +634,14 @@ func storeLayoutEvents(s store.Store, ev map[string]int64) {
 			}
 		}
 		if f, ok := field(dv, "bins"); ok && f.Kind() == reflect.Slice {
-			ev[fmt.Sprintf("%s.len(bins)=%d", t, f.Len())]++
+			switch n := f.Len(); {
+			case n == 0:
+				ev[t+".array-unallocated-or-cleared"]++
+			case n <= 64:
+				ev[t+".array-initial(<=64)"]++
+			default:
+				ev[t+".array-grown(>64)"]++
+			}
 			if f.Len() == 0 && f.Cap() > 0 {
 				ev[t+".cleared-with-capacity"]++
 			}
@@ -650,7 +657,13 @@ func storeLayoutEvents(s store.Store, ev map[string]int64) {
 					np++
 				}
 			}
-			ev[fmt.Sprintf("paginated.len(pages)=%d", f.Len())]++
+			switch n := f.Len(); {
+			case n == 0:
+			case n <= 8:
+				ev["paginated.page-table-initial(8)"]++
+			default:
+				ev["paginated.page-table-extended(>8)"]++
+			}
 		}
 		switch {
 		case nb > 0 && np > 0:
